@@ -542,6 +542,12 @@ def selftest_trace_oracle(check: core.Check) -> None:
         21: ("viol:ValueOperationRaised", [{"tid": 21, "event": "ValueOp", "a": HR, "b": I1, "fails": [{"op": "hash", "exc": "RuntimeError: __hash__ raises"}]}]),
         22: ("viol:RuntimeApiRaised", [{"tid": 22, "event": "RtOp", "o": HR["o"], "a": I1, "fails": [{"op": "runtime.is_assignable", "exc": "RuntimeError: __hash__ raises"}]}]),
     }
+    # the repaired big-union fast path (426a2ab): the old crash, a hash exception with a big union as operand, is a violation
+    big = {"k": "union", "ms": [{"k": "known", "o": {"c": "int", "v": str(i % 2), "items": []}} for i in range(12)]}
+    expect[25] = ("viol:ValueOperationRaised", [{"tid": 25, "event": "ValueOp", "a": HR, "b": big,
+                                                  "fails": [{"op": "unite_values", "exc": "RuntimeError: __hash__ raises"}]}])
+    expect[26] = ("viol:ValueOperationRaised", [{"tid": 26, "event": "ValueOp", "a": big, "b": HR,
+                                                  "fails": [{"op": "can_assign", "exc": "RuntimeError: __hash__ raises"}]}])
     # a line that str.splitlines() would cut: the context must show the whole physical line (9834ac5); pieces are rejected
     src2 = "def f():\n    return (\"a\x0cb\", zz_mark)\n"
     evs2 = observe_source(0, src2, {"slice": "frag", "prog": []}, lambda n: 0, _no_marker)
@@ -574,7 +580,7 @@ def run(check: core.Check) -> None:
         "them; layouts: 16 sites x 12 paddings x lines around x terminators (exhaustive core + simulation)",
         "well-formed values: objects wrapped by KnownValue follow the data model where the checker has to rely on it "
         "(__repr__ returns a str, __getattr__ raises AttributeError only); __eq__, __bool__, __hash__ may raise",
-        "seven defects found by this check are repaired in /repo (known_findings.jsonl, status fixed); the specification requires "
+        "eight defects found by this check are repaired in /repo (known_findings.jsonl, status fixed); the specification requires "
         "the repaired behaviour (FixedLines / FixedFwd = TRUE; no excused internal_error / raising value operation); one class "
         "is open: column-is-utf8-byte-offset",
     ]
